@@ -132,6 +132,9 @@ def _op(rng, name, gap=None):
             op['reason'] = rng.choice(ABORT_REASONS)
         elif name == 'queue' and rng.random() < 0.2:
             op['remotely'] = True
+    if name in ('abort', 'pause') and rng.random() < 0.12:
+        # the caller gives up while the operation is in progress
+        op['cancel_after'] = {'iter': rng.randint(0, 8)} if rng.random() < 0.5 else {'ms': rng.choice((0.5, 10.0, 40.0, 500.0))}
     return op
 
 
@@ -252,6 +255,18 @@ def corpus_micro(tier):
                                      [{'op': user, 'via': 'manager', 'gap': None},
                                       {'op': fin, 'via': 'state', 'gap': gap},
                                       {'op': 'queue', 'via': 'manager', 'gap': None}]))
+    # the caller of abort / pause gives up while the (slow) cancellation of the transfer task is in progress; another
+    # operation follows
+    for start, direction in (('DOWNLOADING', G.DOWNLOAD), ('UPLOADING', G.UPLOAD), ('INITIALIZING', G.UPLOAD), ('QUEUED', G.DOWNLOAD)):
+        for user in ('abort', 'pause'):
+            for via in ('state', 'manager'):
+                for ca in ({'iter': 0}, {'iter': 3}, {'ms': 10.0}, {'ms': 40.0}):
+                    first = {'op': user, 'via': via, 'gap': None, 'cancel_after': ca}
+                    if user == 'abort' and via == 'state':
+                        first['reason'] = 'Requested'
+                    out.append(_plan(direction, start, 'route',
+                                     [first, {'op': 'queue', 'via': 'manager', 'gap': {'ms': 100.0}},
+                                      {'op': 'pause', 'via': 'manager', 'gap': None}]))
     # three callers behind a slow file removal (no tasks at all: the lock is held by the executor jobs only)
     for start in ('QUEUED', 'INITIALIZING', 'DOWNLOADING', 'INCOMPLETE', 'PAUSED'):
         out.append(_plan(G.DOWNLOAD, start, 'route',
@@ -587,6 +602,22 @@ def _run_micro(world: World, plan):
                 events.append(('return', op, op.return_seq))
 
         op.call = world.call(alice, f"{op.phase}{op.idx}:{op.name}", body)
+        ca = spec.get('cancel_after')
+        if ca is not None:
+            def cancel_caller(task=None):
+                if not op.call.task.done():
+                    world.net.fired['caller_cancelled'] += 1
+                    op.call.task.cancel()
+
+            def hop(n):
+                if n > 0:
+                    loop.call_soon(hop, n - 1)
+                else:
+                    cancel_caller()
+            if 'ms' in ca:
+                loop.call_later(float(ca['ms']) / 1000.0, cancel_caller)
+            else:
+                hop(int(ca.get('iter', 0)) + 1)
         if on_done is not None:
             op.call.task.add_done_callback(lambda _t: on_done(op))
         return op
@@ -739,6 +770,11 @@ def _run_micro(world: World, plan):
         facts = {'op': op.name, 'via': op.via, 'direction': direction, 'captured': op.captured,
                  'waited': bool(op.lock_held)}
         out = call.outcome()
+        if out == 'cancelled' and op.spec.get('cancel_after') is not None:
+            # the caller gave up (asyncio.wait_for, a cancelled task): neither accepted nor refused; what was notified on
+            # its behalf is still judged by the edge clause above
+            world.probe('caller_cancelled_inside_operation')
+            continue
         if out in ('pending', 'cancelled'):
             raise RuntimeError(f"operation {op.name} ended as {out}")
         verdict = None
